@@ -128,6 +128,10 @@ func (tx *Transaction) validateSigner(ctx *action.Context, signedTx action.Signe
 	if len(signedTx.Signatures) != 1 {
 		return errors.New("invalid signatures count")
 	}
+	// WithSignature panics on a signature of any other length
+	if len(signedTx.Signatures[0].Signed) != 65 {
+		return errors.New("invalid signature length")
+	}
 
 	//validate basic signature
 	signer := tx.getEthSigner(ctx)
